@@ -454,6 +454,28 @@ class SeqRun(object):
                          'v': '1.37'})
             for rc, n in r.json['usages'].items():
                 ptot[rc] = ptot.get(rc, 0) + n
+        # per-type usages and consumer counts (1.38+) against the model,
+        # for every project/user pair in use
+        pairs = set()
+        for c in m.consumers.values():
+            pairs.add((c['project'], None))
+            pairs.add((c['project'], c['user']))
+        for (p, u) in sorted(pairs, key=repr):
+            for ct in (None, 'all', 'unknown', 'INSTANCE'):
+                q = {'project_id': p}
+                path = '/usages?project_id=' + p
+                if u is not None:
+                    q['user_id'] = u
+                    path += '&user_id=' + u
+                if ct is not None:
+                    q['consumer_type'] = ct
+                    path += '&consumer_type=' + ct
+                r = self.do({'m': 'GET', 'p': path, 'v': '1.39'})
+                exp = m.total_usages((1, 39), q)
+                if r.status != exp.status or norm(r.json) != norm(exp.body):
+                    self.add({'C11'}, 'cross-view',
+                             '%s: expected %r got %r' % (
+                                 path, exp.body, r.json), None)
         tot = {k: v for k, v in tot.items() if v}
         if tot != ptot:
             self.add({'C11'}, 'cross-view', 'sum over projects %r != sum '
